@@ -11,3 +11,8 @@ t "H5 change an error text" C16 controller/control.go 's/Size can only be increa
 t "H6 introduce a temporary" C16 controller/control.go 's/^\tc.size = sizeInBytes$/\tnewSize := sizeInBytes\n\tc.size = newSize/'
 t "H7 rename a local named in a call-site clause" C12 replica/replica.go 's/\bnewSnapName\b/snapDiskName/g'
 t "H8 rename a local in the codec" C15 rpc/wire.go 's/\blength\b/payloadLen/g'
+t "H9 rename a local named in a post-condition witness" C04 controller/rebuild.go 's/\bindx\b/upTo/g'
+t "H10 rename a loop variable named in call-site clauses" C11 controller/control.go 's/\bop\b/step/g'
+t "H11 rename locals of the read loop" C01 replica/diff_disk.go 's/\breadSectors\b/runLen/g; s/\bnewTarget\b/nextIdx/g'
+t "H12 rename the clone source variable" C19 sync/sync.go 's/\bfromReplica\b/srcReplica/g'
+t "H13 add a statistics counter to a verified loop" C01 replica/extents.go 's|^\t\t\t\tc <- (int64(extent.Logical) + i) / u.d.sectorSize$|\t\t\t\tc <- (int64(extent.Logical) + i) / u.d.sectorSize\n\t\t\t\tsentBlocks++|; s|^\tstart := uint64(0)$|\tstart := uint64(0)\n\tsentBlocks := 0\n\tdefer func() { _ = sentBlocks }()|'
